@@ -211,10 +211,15 @@ class Program:
                 continue
             for si, s in enumerate(blk["stmts"]):
                 if s["k"] in ("assign", "setdiscr"):
+                    pr = s["p"]["proj"]
+                    if pr and pr[0] == "deref":
+                        continue        # a write through a pointer does not redefine the pointer
                     d[s["p"]["l"]].append(("s", bi, si))
             t = blk["term"]
             if t["k"] == "call":
-                d[t["dest"]["l"]].append(("c", bi))
+                pr = t["dest"]["proj"]
+                if not (pr and pr[0] == "deref"):
+                    d[t["dest"]["l"]].append(("c", bi))
         self._defs[key] = d
         return d
 
@@ -703,8 +708,9 @@ class Product:
             if tag is not None and rv["a"]["k"] == "const" and not s["p"]["proj"] \
                     and "name" not in inst.body["locals"][s["p"]["l"]]:
                 tag = None      # compiler drop flag, not program state
-        elif k == "agg" and rv["ak"] == "adt" and rv["adt"] in (
-                "std::result::Result", "std::option::Option", "std::ops::ControlFlow"):
+        elif k == "agg" and rv["ak"] == "adt" and (rv["adt"] in (
+                "std::result::Result", "std::option::Option", "std::ops::ControlFlow")
+                or self.g.prog.facts.adts.get(rv["adt"], {}).get("is_enum")):
             tag = (rv["variant"], None)
         elif k == "unop" and rv["op"] == "Not":
             t0 = self._tag_of_operand(inst, rv["a"], tags)
@@ -981,6 +987,18 @@ class Product:
         return (sl, neg)
 
     # ---- queries ----------------------------------------------------------------------
+    @property
+    def live(self):
+        """graph nodes that occur in some reachable product state (feasible under the tag abstraction)"""
+        l = getattr(self, "_live", None)
+        if l is None:
+            l = {n for n, _ in self.nodes}
+            self._live = l
+        return l
+
+    def calls(self, rx=None, pred=None):
+        return [n for n in self.g.call_nodes(rx, pred) if n in self.live]
+
     def gnode(self, pi):
         return self.nodes[pi][0]
 
